@@ -128,5 +128,11 @@ def run(cx):
     if len(cont) == 1 and sg:
         tt, ft = call_bool_branch(ts, cont[0])
         ok = all(ts.dominates(tt, b) for b in sg)
+    elif len(cont) == 1:
+        # `data.contains(TOKEN).then(|| sign(data))`: the closure runs exactly when the test is true
+        thens = [t for t in ts.calls() if re.search(r"bool>?::then$|<impl bool>::then$", t.callee or "") and op_place(t.args[0]) is not None
+                 and local_flows_from(ts, op_place(t.args[0]).local, lambda d: d is cont[0], 4) is not None]
+        cl_sign = [c for c in fb.closures_of(ts) if blocks_calling(c, r"^signedsource::sign$")]
+        ok = len(thens) == 1 and len(cl_sign) == 1
     cx.ob("R33.multiplicity", ts.id + "|signs-iff-token-present", ok,
           "try_sign_file must sign exactly when the signing token is present", ts.loc())
